@@ -1,15 +1,18 @@
 (* C20 - Sigma-separation agrees with d-separation on acyclic graphs; symmetric; adjacent => connected. *)
 From Coq Require Import List Bool.
-From Y0 Require Import Base.ListSet Graph.MixedGraph Graph.DSep Graph.Sigma Proofs.SigmaP.
+From Y0 Require Import Base.ListSet Graph.MixedGraph Graph.DSep Graph.Sigma Proofs.SigmaP Proofs.SigmaSymP.
 Import ListNotations.
 
-(* Full statement (kept visible). Proved below for all graphs: the adjacency clause. The agreement
-   and symmetry clauses are evaluated inside Coq on every generated case (Corr/C20.v); not yet proved. *)
-Definition C20_statement : Prop :=
-  (forall (g : mg nat) a b C, wf g -> is_acyclic g = true -> In a (nodes g) -> In b (nodes g) -> a <> b ->
+(* The agreement clause (kept visible): proved below are symmetry and adjacency for ALL mixed graphs; agreement with
+   d-separation on acyclic graphs is evaluated inside Coq on every generated case (Corr/C20.v) and not yet proved. *)
+Definition C20_agreement_statement : Prop :=
+  forall (g : mg nat) a b C, wf g -> is_acyclic g = true -> In a (nodes g) -> In b (nodes g) -> a <> b ->
      incl C (nodes g) -> ~ In a C -> ~ In b C ->
-     are_sigma_separated false g a b C = d_separated_spec g a b C) /\
-  (forall (g : mg nat) a b C, are_sigma_separated false g a b C = are_sigma_separated false g b a C).
+     are_sigma_separated false g a b C = d_separated_spec g a b C.
+
+(* the verdict is symmetric in the two nodes: every mixed graph, cyclic or not, every conditioning set *)
+Theorem C20_symmetric (g : mg nat) a b C : are_sigma_separated false g a b C = are_sigma_separated false g b a C.
+Proof. exact (sigma_symmetric false g C a b). Qed.
 
 Theorem C20_adjacent_nodes_are_never_separated (g : mg nat) a b C :
   In a (nodes g) -> a <> b ->
@@ -27,6 +30,7 @@ Theorem C20_old_code_refuted_bow :
     are_sigma_separated true g a b C = true /\ d_separated_spec g a b C = false.
 Proof. exact sigma_old_refuted_bow. Qed.
 
+Print Assumptions C20_symmetric.
 Print Assumptions C20_adjacent_nodes_are_never_separated.
 Print Assumptions C20_old_code_refuted_collider_with_distant_conditioned_descendant.
 Print Assumptions C20_old_code_refuted_bow.
